@@ -92,7 +92,19 @@ def stepLine (check : Bool) (d : DState) (line : String) : DState × String :=
     match k.toNat? with
     | some k => (d, if check then "ok" else natS (opOracle k d.st))
     | none => (d, "bad-op")
-  | "K" :: _ => ({ d with lost := true }, "unsupported")
+  | "K" :: rest =>
+    -- a build killed in a forked child: the prefix it had recorded, then a new engine on the unchanged store.  The
+    -- monitor of the checking mode does not follow it (the abstract driver `enginecheck` replays the real prefix).
+    if check then ({ d with lost := true }, "unsupported") else
+    match Drv.Engine.nums rest with
+    | some (key :: at_ :: _mode :: ni :: items) =>
+      match takeSched ni items with
+      | none => (d, "bad-op")
+      | some sched =>
+        let full := runBuild key 0 (sched.map fun i => { i with cancel := false }) d.st
+        if full.halted then ({ d with lost := true }, "unsupported") else
+        ({ d with st := opRestart d.st }, renderTrace (killedTrace key at_ sched d.st) ++ " ; KILL")
+    | _ => (d, "bad-op")
   | "B" :: rest =>
     match Drv.Engine.nums rest with
     | some (key :: cancelAt :: mode :: ni :: items) =>
